@@ -25,6 +25,10 @@ def check_cg_coef(repo, chk, tier, cg_sq):
         return sp.Integer(0) if sign == 0 else sign * sp.sqrt(sp.Rational(sq.numerator, sq.denominator))
 
     def numeric(tr, d, args, kwargs, n):
+        if d.split(".")[-1] in ("Rational", "Fraction") and 1 <= len(args) <= 2:
+            return sp.Rational(*[sp.nsimplify(a_) for a_ in args])
+        if d.split(".")[-1] in ("S", "sympify", "nsimplify", "Integer", "Float") and len(args) == 1:
+            return sp.nsimplify(args[0])
         if d.split(".")[-1] == "CG":
             if len(args) != 6 or kwargs:
                 kw = ("j1", "m1", "j2", "m2", "j3", "m3")
@@ -36,7 +40,15 @@ def check_cg_coef(repo, chk, tier, cg_sq):
     half = Fraction(1, 2)
     spins = [half * k for k in range(int(jmax / half) + 1)]
     n, bad = 0, []
-    tr = Translator(repo, hooks={"numeric_call": numeric, "allow_raise": True}, max_depth=3)
+    def isinst(tr_, a_, k_, n_):
+        # callers hand spins over as python ints (integer spin) or floats (half-integer spin): in the abstract run an
+        # integer-valued number plays the int, anything else the float
+        names = [ast.unparse(e) for e in (n_.args[1].elts if isinstance(n_.args[1], ast.Tuple) else [n_.args[1]])]
+        v = a_[0]
+        is_int = isinstance(v, int) and not isinstance(v, bool) or bool(getattr(v, "is_Integer", False))
+        return ("int" in names and is_int) or ("float" in names and not is_int and (isinstance(v, float) or bool(getattr(v, "is_number", False))))
+
+    tr = Translator(repo, hooks={"numeric_call": numeric, "allow_raise": True, "builtin.isinstance": isinst}, max_depth=3)
     for jb in spins:
         for jc in spins:
             mbs = [-jb + k for k in range(int(2 * jb) + 1)]
